@@ -52,7 +52,7 @@ pub fn step_to_json(s: &Step) -> Value {
             json!({"a":"recv","at":time_to_json(at),"target":target,"cls":obs::class_name(msg.class),
                    "method":msg.method.map(|m| m as i64).unwrap_or(-1),"code":msg.code,"auth":msg.auth,
                    "fp":msg.fp,"lt":msg.lt,"raw":msg.raw.as_ref().map(|r| obs::hex(r)).unwrap_or_default(),
-                   "is_raw":msg.raw.is_some()})
+                   "is_raw":msg.raw.is_some(),"hostile":msg.hostile})
         }
     }
 }
@@ -103,6 +103,7 @@ pub fn step_from_json(v: &Value) -> Step {
                     } else {
                         None
                     },
+                    hostile: v.get("hostile").cloned().unwrap_or(Value::Null),
                 },
             }
         }
@@ -248,6 +249,7 @@ pub fn random_msg(rng: &mut impl Rng, d: &Driver, hostile: bool) -> MsgSpec {
         fp: fp.to_string(),
         lt: crate::server::random_lt_spec(rng, code),
         raw,
+        hostile: Value::Null,
     }
 }
 
@@ -276,6 +278,7 @@ pub fn guided_lt_msg(rng: &mut impl Rng, d: &Driver) -> MsgSpec {
         fp: fp.to_string(),
         lt,
         raw: None,
+        hostile: Value::Null,
     };
     let challenge = |rng: &mut dyn FnMut(u32) -> u32| -> Value {
         let algs = ["none", "none", "md5", "sha", "md5_sha", "sha_md5", "unsup_md5"][rng(7) as usize];
@@ -307,12 +310,19 @@ pub fn guided_lt_msg(rng: &mut impl Rng, d: &Driver) -> MsgSpec {
     }
 }
 
+pub fn random_hostile(rng: &mut impl Rng) -> Value {
+    let kind = *wpick(rng, &[(40, "inject"), (10, "trunc_val"), (10, "rand_val"), (8, "dup"), (12, "bitflip"),
+                           (10, "trunc"), (10, "extend")]);
+    json!({"kind":kind,"idx":rng.random_range(0..8),"off":rng.random_range(0..64),"s":rng.random_range(0..16)})
+}
+
 /// One random step, biased by `profile`
 pub fn random_step(rng: &mut impl Rng, d: &Driver, profile: &str) -> Step {
     let weights: [(u32, &str); 4] = match profile {
         "capacity" => [(40, "send"), (8, "indic"), (27, "timeout"), (25, "recv")],
         "sched" => [(15, "send"), (2, "indic"), (70, "timeout"), (13, "recv")],
         "lt" => [(33, "send"), (3, "indic"), (19, "timeout"), (45, "recv")],
+        "hostile" => [(30, "send"), (2, "indic"), (8, "timeout"), (60, "recv")],
         _ => [(25, "send"), (6, "indic"), (29, "timeout"), (40, "recv")],
     };
     match *wpick(rng, &weights) {
@@ -330,11 +340,17 @@ pub fn random_step(rng: &mut impl Rng, d: &Driver, profile: &str) -> Step {
         },
         "timeout" => Step::Timeout { at: random_timer_time(rng, d) },
         _ => {
-            let msg = if d.cfg.mech == "lt" && !d.sent.is_empty() && rng.random_range(0..100) < 70 {
+            let mut msg = if d.cfg.mech == "lt" && !d.sent.is_empty() && rng.random_range(0..100) < 70 {
                 guided_lt_msg(rng, d)
             } else {
                 random_msg(rng, d, false)
             };
+            if profile == "hostile" && rng.random_range(0..100) < 75 {
+                msg.hostile = random_hostile(rng);
+                if rng.random_range(0..100) < 80 {
+                    msg.target = Target::Tx(rng.random_range(0..3));
+                }
+            }
             Step::Recv { at: small_dt(rng, d), msg }
         }
     }
